@@ -12,6 +12,7 @@ import random
 
 from common import Result, driver_batch, load_corpus
 import setupm
+import c16proto
 
 N = setupm.N
 PRODUCT = setupm.NAMES.index("product")
@@ -251,7 +252,8 @@ def run(ctx):
     else:
         results = [_work(c) for c in cases]
     check(res, results)
-    res.failures.sort(key=lambda f: (f["kind"] != "spec", len(f["input"]["events"])))
+    c16proto.run_section(res, rng, 150 if tier == "quick" else 4000)
+    res.failures.sort(key=lambda f: (f["kind"] != "spec", len(f["input"].get("events", ()))))
     res.exhaustive = tier == "thorough"
     res.extra["patterns"] = "all 4^8 = 65536 (subset x attempt) patterns" if tier == "thorough" else "256 subsets + 500 random patterns"
     return res
@@ -260,6 +262,11 @@ def run(ctx):
 def replay(ctx):
     rp = ctx["replay"]
     f = rp.get("failure") or rp.get("first_difference")
+    if f["input"].get("via") == "protocol":
+        res = Result("C16")
+        res.rule = "replay of one recorded set-up run over the wire"
+        c16proto.replay_case(res, {k: v for k, v in f["input"].items() if k != "via"})
+        return res
     c = mk_case(f["input"]["events"], f["input"]["mixers"], f["input"]["thermostats"], f["input"].get("label", "replay"),
                 f["input"].get("pattern"), f["input"].get("minimal", ()))
     res = Result("C16")
